@@ -107,9 +107,14 @@ class FakePool:
         self.max_workers = None
         self.nsubmitted = 0
 
-    def executor(self, mp_context=None, max_workers=None):
+    def executor(self, *cargs, **ckw):
         pool = self
-        pool.max_workers = max_workers
+        # the constructor arguments go through the REAL ProcessPoolExecutor constructor (it validates
+        # max_workers / mp_context / initializer and raises what a real pool would raise; no worker
+        # process is started before the first submit), then that pool is closed again
+        real = pool.saved[0](*cargs, **ckw)
+        pool.max_workers = getattr(real, '_max_workers', None)
+        real.shutdown(wait=True, cancel_futures=True)
 
         class Ex:
             def __enter__(s):
@@ -378,6 +383,16 @@ def gen_case(rng, small=False):
     elif r < 0.48:
         labels = []
         flavour.append('empty-labels')
+    r = rng.random()
+    small = [l for l in labs if int((seg == l).sum()) < 2 * npix]
+    if r < 0.06 and small:
+        # a labels= subset made of non-candidates only (fewer than 2*npixels pixels each)
+        labels = rng.sample(small, rng.randint(1, len(small)))
+        flavour.append('only-non-candidates')
+    elif r < 0.10:
+        # every segment is too small to be a candidate
+        npix = int(max((seg == l).sum() for l in labs)) // 2 + 1
+        flavour.append('all-small')
     # magnitude / pedestal axis: the same scene as raw counts on a bias level, in other units, and in
     # single precision.  The segmentation is kept, so the parents are the same; any difference in
     # floating-point precision between two execution paths (serial / worker processes) shows up
@@ -429,6 +444,37 @@ def directed_cases():
     out.append(dict(kind='directed', flavour=['contrast1-badmode'], data=d, seg=base.astype('int32') * 4,
                     npix=3, nlevels=8, contrast=1, mode='bad', conn=8, relabel=True, labels=None,
                     redeblend=False))
+    out += pool_matrix_cases()
+    return out
+
+
+def pool_matrix_cases():
+    """nproc x number-of-candidates matrix: four blends (labels 2, 3, 5, 6) and two one-pixel segments
+    (labels 1, 8); labels= subsets give 0, 1, 2, 4 candidates (subsets not starting at the first label,
+    unordered, made of non-candidates only, empty), npixels too large gives 0 candidates with
+    labels=None.  'pool' = nproc values for REAL spawn pools (quick tier; thorough adds more)."""
+    d = np.round(_gauss(9, 44, [(100, 4, 3, 1.0), (80, 4, 7, 1.0), (120, 4, 14, 1.0), (90, 4, 18, 1.0),
+                                (100, 4, 25, 1.0), (100, 4, 29, 1.0), (70, 4, 36, 1.0), (110, 4, 40, 1.0)]))
+    seg = np.zeros(d.shape, int)
+    for lab, (a, b) in zip((2, 3, 5, 6), ((0, 11), (11, 22), (22, 33), (33, 44))):
+        seg[:, a:b][d[:, a:b] > 5] = lab
+    seg[0, 0], seg[8, 43] = 1, 8
+    seg = seg.astype('int32')
+    out = []
+    for labels, npix, pool in ((None, 3, [2, 3]),        # 4 candidates: more than nproc
+                               ([2], 3, [2, 3]),          # 1 candidate: fewer than nproc
+                               ([5, 3], 3, [3]),          # 2 candidates, not from the first label, unordered
+                               ([8, 6], 3, []),           # non-candidate first, then one candidate
+                               ([1, 8], 3, [2, 3]),       # non-candidates only
+                               ([8], 3, [2, 3]),
+                               ([], 3, [2, 3]),           # empty subset
+                               (None, 60, [2, 3])):       # every segment too small
+        ncand = 0 if npix == 60 else len([l for l in ((2, 3, 5, 6) if labels is None else labels) if l in (2, 3, 5, 6)])
+        for relabel in (False, True):
+            out.append(dict(kind='directed', flavour=['pool-matrix'], data=d, seg=seg.copy(), npix=npix,
+                            nlevels=8, contrast=0.001, mode='linear', conn=8, relabel=relabel,
+                            labels=None if labels is None else list(labels), redeblend=False,
+                            pool=pool if relabel or ncand == 0 else []))
     return out
 
 
@@ -767,7 +813,9 @@ def run(ctx):
         're-deblending; labels=None/subset/shuffled/duplicates/scalar/empty/invalid; nlevels, contrast '
         '(incl. 0, 1, invalid), 3 modes (+invalid), connectivity equal/different from detection, relabel; '
         'serial run + nproc>1 path under EVERY completion order for <=3 tasks (quick) / <=4 tasks (thorough), '
-        'reversed + random orders above, every task of the in-process executor working on pickled copies of its '
+        'reversed + random orders above, nproc in {2,3,4,16} crossed with 0 / 1 / fewer / more candidates than '
+        'workers (labels= subsets of non-candidates only, empty, unordered, all segments too small) incl. a fixed '
+        'nproc x candidates matrix on real spawn pools, every task of the in-process executor working on pickled copies of its '
         'arguments (+ real spawn pools); per-source independence: a parent deblended alone / with all labels / '
         'shuffled / reversed must get the same child pattern; non-trivial = at least '
         'one parent is deblended or an error branch is taken; distinct = distinct (scene, arguments, order)')
@@ -779,7 +827,8 @@ def run(ctx):
         'schedule theorems assume valid_schedule: concurrent.futures.as_completed yields every submitted future '
         'exactly once (the completion order is a permutation of the submission indices)',
         'the parallel code path is exercised with an in-process executor delivering futures in chosen '
-        'completion orders; like a real ProcessPoolExecutor it pickles the bound arguments, call arguments and '
+        'completion orders; its constructor arguments are validated by the real ProcessPoolExecutor constructor; '
+        'like a real ProcessPoolExecutor it pickles the bound arguments, call arguments and '
         'results of every task (no state shared between tasks); real spawn pools are sampled (the OS scheduler '
         'cannot be enumerated)',
         'per_source_independent is about the merge: equal watershed output for parent l => equal child pattern; '
@@ -853,6 +902,8 @@ def run(ctx):
                           (lambda n, perm=perm: list(perm) if n == len(perm) else list(range(n))), 'schedule')
             order = meta[-1][5]
             ctx.stat('schedule', 'permutations_run')
+            ctx.stat('nproc_x_tasks', f'nproc={nproc},tasks=' + ('0' if not order else '1' if len(order) == 1 else
+                                                                '<nproc' if len(order) < nproc else '>=nproc'))
             if perm is not None and order != list(perm):
                 ctx.stat('schedule', 'task_count_changed_between_runs')
             a, b = strip_res(res), strip_res(res2)
@@ -880,21 +931,34 @@ def run(ctx):
             schedule(perm)
     ctx.sample({'case': describe(cases[-1]), 'impl': strip_res(meta[-1][6])})
 
-    # real process pools (spawn): sampled
-    npool = 1 if quick else 6
-    pool_cases = [m for m in meta if m[7] == 'serial' and 'ok' in m[6] and len(m[6]['ok']['inverse_map']) >= 2]
-    for m in pool_cases[:npool]:
+    # real process pools (spawn): the nproc x candidates matrix, plus sampled generated cases
+    def real_pool(m, nproc):
         case = m[0]
-        for nproc in ([2] if quick else [2, 4]):
-            segm = make_segm(case)
-            res2 = call_impl(case, segm, nproc)
-            ctx.stat('schedule', 'real_spawn_pool_runs')
-            ctx.count_case([describe(case), 'pool', nproc])
-            if strip_res(res2) != strip_res(m[6]):
-                ctx.violation('deblend_sources:schedule-dependent:real-pool',
-                              f'real ProcessPoolExecutor nproc={nproc} differs from nproc=1',
-                              {'case': describe(case), 'nproc': nproc, 'order': None,
-                               'serial': strip_res(m[6]), 'parallel': strip_res(res2)})
+        segm = make_segm(case)
+        res2 = call_impl(case, segm, nproc)
+        ctx.stat('schedule', 'real_spawn_pool_runs')
+        ctx.count_case([describe(case), 'pool', nproc])
+        if strip_res(res2) != strip_res(m[6]):
+            ctx.violation('deblend_sources:schedule-dependent:real-pool',
+                          f'real ProcessPoolExecutor nproc={nproc} differs from nproc=1',
+                          {'case': describe(case), 'nproc': nproc, 'order': None,
+                           'serial': strip_res(m[6]), 'parallel': strip_res(res2)})
+    serial_meta = [m for m in meta if m[7] == 'serial']
+    for m in serial_meta:
+        if 'pool' in m[0]:
+            for nproc in (m[0]['pool'] if quick else [2, 3, 4]):
+                real_pool(m, nproc)
+                ctx.stat('pool_matrix', f"labels={m[0]['labels']},npixels={m[0]['npix']},nproc={nproc}")
+    if not quick:
+        pool_cases = [m for m in serial_meta if 'pool' not in m[0] and 'ok' in m[6]
+                      and len(m[6]['ok']['inverse_map']) >= 2]
+        for m in pool_cases[:6]:
+            for nproc in (2, 4):
+                real_pool(m, nproc)
+        zero = [m for m in serial_meta if 'pool' not in m[0]
+                and any(f in m[0]['flavour'] for f in ('only-non-candidates', 'all-small', 'empty-labels'))]
+        for m in zero[:40]:
+            real_pool(m, ctx.rng.choice([2, 3]))
 
     # SourceFinder passes its arguments through unchanged
     from photutils.segmentation import SourceFinder, detect_sources, deblend_sources
